@@ -250,6 +250,12 @@ class Machine:
             return ("struct", str(e.get("path", "")).split("::")[-1], {f[0]: self.ev(f[1], env) for f in e.get("fields", [])})
         if k == "index":
             v, i = self.ev(e["e"], env), self.ev(e["i"], env)
+            if isinstance(i, tuple) and i and i[0] == "struct" and i[1] in ("RangeTo", "RangeFrom", "Range", "RangeFull", "RangeInclusive", "RangeToInclusive"):
+                a_ = int(i[2].get("start", 0)) if "start" in i[2] else 0
+                b_ = int(i[2]["end"]) + (1 if i[1] in ("RangeInclusive", "RangeToInclusive") else 0) if "end" in i[2] else len(v)
+                if a_ > b_ or b_ > len(v):
+                    raise Unknown("slice out of range (would panic)")
+                return v[a_:b_]
             return v[int(i)]
         if k in ("assign", "assignop"):
             l = e["l"]
@@ -427,6 +433,20 @@ class Machine:
         if isinstance(f, tuple) and f and f[0] == "fnref":
             return self.call_named(f[1], args)
         raise Unknown("call of %r" % (f,))
+
+    def run_fn(self, h, args):
+        """evaluate the body of the fn record `h` on `args` (hooks are not consulted for `h` itself)"""
+        env2 = Env()
+        ps = h.get("params", [])
+        if len(ps) != len(args):
+            raise Unknown("arity")
+        for p, a in zip(ps, args):
+            if not self.match(p, a, env2):
+                raise Unknown("refutable parameter")
+        try:
+            return self.ev(h["body"], env2)
+        except Return as r:
+            return r.value
 
     def call_named(self, fn, args):
         last = fn.split("::")[-1]
@@ -608,6 +628,52 @@ class Machine:
             if name == "chain":
                 return recv + list(args[0])
         if isinstance(recv, str):
+            def _pred(p_):
+                # a char / &str / closure pattern
+                if isinstance(p_, str):
+                    return lambda ch: ch == p_ if len(p_) == 1 else None
+                return lambda ch: truthy(self.apply(p_, [ch]))
+            if len(recv) == 1 and name in ("is_alphanumeric", "is_ascii_alphanumeric", "is_alphabetic", "is_ascii_alphabetic", "is_numeric", "is_ascii_digit", "is_digit", "is_whitespace", "is_ascii_lowercase", "is_ascii_uppercase", "is_lowercase", "is_uppercase"):
+                return {"is_alphanumeric": recv.isalnum(), "is_ascii_alphanumeric": recv.isascii() and recv.isalnum(), "is_alphabetic": recv.isalpha(), "is_ascii_alphabetic": recv.isascii() and recv.isalpha(),
+                        "is_numeric": recv.isnumeric(), "is_ascii_digit": recv.isascii() and recv.isdigit(), "is_digit": recv.isdigit(), "is_whitespace": recv.isspace(),
+                        "is_ascii_lowercase": recv.isascii() and recv.islower(), "is_ascii_uppercase": recv.isascii() and recv.isupper(), "is_lowercase": recv.islower(), "is_uppercase": recv.isupper()}[name]
+            if name in ("find", "rfind") and len(args) == 1:
+                if isinstance(args[0], str) and len(args[0]) != 1:
+                    ix = recv.find(args[0]) if name == "find" else recv.rfind(args[0])
+                    return some(float(ix)) if ix >= 0 else NONE
+                pr = _pred(args[0])
+                rng = range(len(recv)) if name == "find" else range(len(recv) - 1, -1, -1)
+                for ix in rng:
+                    if pr(recv[ix]):
+                        return some(float(ix))
+                return NONE
+            if name == "contains" and len(args) == 1:
+                if isinstance(args[0], str) and len(args[0]) != 1:
+                    return args[0] in recv
+                pr = _pred(args[0])
+                return any(pr(ch) for ch in recv)
+            if name == "chars":
+                return list(recv)
+            if name == "len":
+                return float(len(recv))
+            if name == "split_once" and len(args) == 1 and isinstance(args[0], str):
+                ix = recv.find(args[0])
+                return some(("tup", [recv[:ix], recv[ix + len(args[0]):]])) if ix >= 0 else NONE
+            if name == "rsplit_once" and len(args) == 1 and isinstance(args[0], str):
+                ix = recv.rfind(args[0])
+                return some(("tup", [recv[:ix], recv[ix + len(args[0]):]])) if ix >= 0 else NONE
+            if name == "split" and len(args) == 1 and isinstance(args[0], str):
+                return recv.split(args[0])
+            if name == "splitn" and len(args) == 2 and isinstance(args[1], str):
+                return recv.split(args[1], int(args[0]) - 1)
+            if name in ("strip_prefix", "strip_suffix") and isinstance(args[0], str):
+                if name == "strip_prefix":
+                    return some(recv[len(args[0]):]) if recv.startswith(args[0]) else NONE
+                return some(recv[:-len(args[0])]) if args[0] and recv.endswith(args[0]) else NONE
+            if name == "trim":
+                return recv.strip()
+            if name == "replace" and len(args) == 2 and all(isinstance(a_, str) for a_ in args):
+                return recv.replace(args[0], args[1])
             if name == "starts_with":
                 return recv.startswith(args[0])
             if name == "ends_with":
